@@ -54,6 +54,7 @@ def shards(tier, seed):
     out += [{"tier": tier, "part": "cross", "i": i} for i in range(16)]
     out += [{"tier": tier, "part": "unary", "i": i} for i in range(NSH)]
     out += [{"tier": tier, "part": "empty", "i": 0}]
+    out += [{"tier": tier, "part": "unstranded", "i": i} for i in range(8)]
     return out
 
 
@@ -500,6 +501,18 @@ def run_shard(shard):
         res.sample({"unary": "layout battery", "N": N})
     elif part == "empty":
         check_empty(res)
+    elif part == "unstranded":
+        # operands without a direction take part in the set algebra like any other strand value
+        N = w["Nx"]
+        locs = [(b, s) for b in worlds.layouts(N, 2, "disjoint") for s in "+-."]
+        for idx, (b1, s1) in enumerate(locs):
+            if idx % 8 != shard["i"]:
+                continue
+            for (b2, s2) in locs:
+                if "." in (s1, s2):
+                    for pk in ("none", "seq"):
+                        check_pair(res, N, b1, s1, pk, b2, s2, pk)
+        res.sample({"unstranded": "pairs with at least one UNSTRANDED operand"})
     return res
 
 
